@@ -10,7 +10,7 @@ PROPERTY = "C08"
 ASSUMPTIONS = [
     "graph arguments on the command line are files written by the harness (kthlist / matrix), so this check does not depend on the graph writers of the tree",
     "sub-commands with randomness are run with the same --seed in both tools (in-process), both starting from the same state of the global generator",
-    "instances have at most 22 variables: the two model sets are compared completely",
+    "instances have at most 22 variables: the two model sets are compared completely; sub-check 'large' compares larger instances on sampled assignments only",
 ]
 
 
@@ -138,6 +138,46 @@ def strat_lib(draw):
     return draw(catalog.invocations(deterministic_only=True))
 
 
+def run_large(case):
+    """realistic sizes: the two renderings are compared on sampled assignments"""
+    from cnfgen.formula.cnf import CNF
+    from cnfgen.formula.opb import OPB
+    from checks.c10 import build_instance
+    from checks.c01 import batch_for
+    name, p = case['name'], case['p']
+    Fc, _ = build_instance(name, p, CNF)
+    Fo, _ = build_instance(name, p, OPB)
+    what = "library {} {}".format(name, p)
+    n = Fc.number_of_variables()
+    if n <= 22:
+        labels = compare(Fc, Fo, what)
+        return Outcome(labels=labels + [name, 'complete'], nontrivial=False)
+    compare(Fc, Fo, what)          # class, variable count and names
+    if len(Fc) > 30000 or sum(len(c) for c in Fc) > 200000:
+        return Outcome(labels=['skipped-for-size', name], nontrivial=False)
+    B, nmodels = batch_for(Fc, p['s'], want_models=4, max_nodes=max(50, min(2000, 400000 // (1 + sum(len(c) for c in Fc)))))
+    t1, t2 = tt.formula_tt(Fc, B), tt.formula_tt(Fo, B)
+    if t1 != t2:
+        a = tt.first_row(t1 ^ t2)
+        raise Violation("{}: the assignment with true variables {} satisfies the {} rendering only".format(
+            what, sorted(B.rows[a]), 'CNF' if (t1 >> a) & 1 else 'OPB'))
+    # row by row for the non clausal constraints: each must agree with the clauses that replace it?  not required by the property
+    native = [r for r in Fo if not (r[-2] == '>=' and r[-1] == 1 and all(c == 1 for c, _ in r[:-2]))]
+    labels = [name, 'sampled', 'native-cardinality' if native else 'clausal-only', 'models-found' if nmodels else 'no-model-found']
+    if t1 and t1 != B.full:
+        labels.append('sample-separates')
+    return Outcome(labels=labels, nontrivial=bool(native) and bool(t1) and t1 != B.full)
+
+
+@st.composite
+def strat_large(draw):
+    from checks.c10 import INSTANCES
+    name = draw(st.sampled_from(sorted(INSTANCES)))
+    p = dict(draw(INSTANCES[name]))
+    p['s'] = draw(st.integers(0, 10 ** 6))
+    return {'name': name, 'p': p}
+
+
 NAMES = catalog.family_names()
 
 SUBCHECKS = [
@@ -150,4 +190,7 @@ SUBCHECKS = [
     SubCheck('lib', run_lib, strategy=strat_lib, quick=600, thorough=30000,
              rule="every deterministic family of the catalogue through the library with formula_class=CNF and =OPB; same oracle",
              required_labels=['native-cardinality', 'native-equality']),
+    SubCheck('large', run_large, strategy=strat_large, quick=500, thorough=20000,
+             rule="every family through the library at realistic sizes (the instance generator of C10: php up to 40x30, graph families on gnm/regular/grid graphs up to 60 vertices, op 16, stone 14x6, vdw 60, ptn 300, random formulas, ...) with formula_class=CNF and =OPB; oracle: same class/count/names and the two renderings agree on ~110 sampled assignments (models of the CNF side found by a node-bounded DPLL, 1-3 flips around them, random ones of four densities, all-false, all-true), evaluated bit-parallel; non-trivial: >22 variables, a non-clausal OPB constraint, and the sample contains both satisfying and falsifying rows",
+             required_labels=['sampled', 'sample-separates', 'models-found', 'native-cardinality']),
 ]
